@@ -41,7 +41,10 @@ OnX(st, e, od, data, realsrv) ==
       IF st.dist
         THEN \* already disturbed: frames need only be well formed; follow the server
              Good([st1 EXCEPT !.expTO = (e.fault \in {"drop", "late"})])
+        \* (a download segment without data that is not the last one is legal CiA 301, if pointless: it
+        \*  is what write(b"") on the unbuffered stream produces; the design model does not generate it)
         ELSE IF e.q \notin CliFrames(st.cl, data)
+                /\ ~(st.cl.ph = "dlSeg" /\ Len(data) > st.cl.pos /\ e.q = DlSeg(st.cl.tog, <<>>, 0))
           THEN Bad(st, "client frame is not legal for the current protocol step")
         ELSE IF j.free \/ Len(e.r) # 1
           THEN Bad(st, "HARNESS: undisturbed legal client frame was out of protocol for the server")
